@@ -18,6 +18,8 @@ Definition eTun (l : list int) : ev := TunBatch (ns_of_ints l).
 Definition eAns (idx : int) : ev := Answer (n_of_int idx).
 Definition eAllow : ev := AllowInit.
 Definition eUapi (b : bool) : ev := Uapi b.
+Definition eRefInit (idx : int) : ev := RefInit (n_of_int idx).
+Definition eRefData : ev := RefData.
 Definition tx (idx hi lo pl : int) : N * N * N := (n_of_int idx, big hi lo, n_of_int pl).
 (* a run of consecutive counters carrying consecutive packet ids (compact form) *)
 Fixpoint txrun_aux (idx c pl : N) (n : nat) : list (N * N * N) :=
@@ -88,7 +90,8 @@ Fixpoint check_cases (ks : list case) (idx : N) : list (N * N * N) :=
    [0 all numbered; 1 straddle (some numbered, some held); 2 exhausted at the top check;
     3 no key; 4 initiation because sendNonce > RekeyAfterMessages; 5 initiation suppressed by spacing;
     6 new session delivers held packets; 7 new session sends a keepalive;
-    8 transports in stress traces; 9 keys in stress traces; 10 non-consecutive neighbours in stress traces] *)
+    8 transports in stress traces; 9 keys in stress traces; 10 non-consecutive neighbours in stress traces;
+    11 responder session confirmed by data; 12 initiation after 2^60 on a session where the device was the RESPONDER] *)
 Fixpoint bump (l : list N) (i : nat) (d : N) : list N :=
   match l, i with
   | [], _ => []
@@ -112,12 +115,13 @@ Definition classify (s : dst) (e : ev) (m : out) (s' : dst) : list nat :=
         if pending s then
           (if existsb (fun t => negb (tx_pl t =? 0)) (o_tx m) then [6%nat] else [7%nat])
         else []
+    | RefData => match nxt s with Some _ => [11%nat] | None => [] end
     | _ => []
     end in
   let rk :=
     match cur s' with
     | Some k => if nonempty (o_tx m) && (Rekey <? knonce k) && negb held_after
-                then (if 1 <=? o_init m then [4%nat] else [5%nat]) else []
+                then (if 1 <=? o_init m then (if kinit k then [4%nat] else [12%nat]) else [5%nat]) else []
     | None => []
     end in
   base ++ rk.
@@ -143,4 +147,4 @@ Definition stats_case (st : list N) (k : case) : list N :=
       bump (bump (bump st 8 n) 9 (N.of_nat (length ks))) 10 d
   end.
 
-Definition stats (ks : list case) : list N := fold_left stats_case ks [0;0;0;0;0;0;0;0;0;0;0].
+Definition stats (ks : list case) : list N := fold_left stats_case ks [0;0;0;0;0;0;0;0;0;0;0;0;0].
